@@ -8,11 +8,11 @@ from hypothesis import strategies as st
 from . import gen_cmake as G
 
 CMAKE_NAMES = ["a.cmake", "b.cmake", "zeta.cmake", "d.e.cmake", "x-y.cmake", "Mod_1.cmake", "pre_one.cmake", "pre_two.cmake",
-               "ax.cmake", "bx.cmake", "Zeta.cmake", "w.cmake.cmake", "c.cmake-3.cmake", "in.util.cmake", "pfx.core.cmake", "tool.cmake", ".impl.cmake", "_private.cmake"]
+               "ax.cmake", "bx.cmake", "Zeta.cmake", "w.cmake.cmake", "c.cmake-3.cmake", "in.util.cmake", "pfx.core.cmake", "tool.cmake", ".impl.cmake", "_private.cmake", "x.cmake", "d.cmake"]
 MIXED_NAMES = ["up.CMAKE", "Mix.CMake", "w.Cmake"]
 OTHER_NAMES = ["README", "x.txt", "CMakeLists.txt", "x.cmake.in", "cmake", "notcmake", "z.cmake.bak", "acmake", "data.json",
                "cmake.txt"]
-DIR_NAMES = ["sub", "a.b", "x-y", "cmake", "Dir2", "docs", "pre_dir", "ax", "deep", "d1", "d2", "tool.cmake", "pfx", "Sub", ".detail", "in"]
+DIR_NAMES = ["sub", "a.b", "x-y", "cmake", "Dir2", "docs", "pre_dir", "ax", "deep", "d1", "d2", "tool.cmake", "pfx", "Sub", ".detail", "in", "..legacy"]
 
 CONTENTS = [
     "#[[[\n# Function doc @.\n#]]\nfunction(fn_@ arg)\nendfunction()\n",
@@ -164,11 +164,26 @@ def pattern_matches(pattern, abs_path, is_dir):
     pat = pattern[:-1] if dir_only else pattern
     if pat.startswith("/"):
         pc = [c for c in pat.split("/") if c]
-        if len(pc) > len(comps) or comps[:len(pc)] != pc:
-            return False
-        if len(pc) == len(comps):
-            return is_dir or not dir_only
-        return True        # something below the named path
+
+        def m(pi, ci):
+            """pattern components pc[pi:] against a prefix of comps[ci:]; returns the set of end indexes reached"""
+            if pi == len(pc):
+                return {ci}
+            if pc[pi] == "**":
+                ends = set()
+                for k in range(ci, len(comps) + 1):
+                    ends |= m(pi + 1, k)
+                return ends
+            if ci < len(comps) and _glob_re(pc[pi]).match(comps[ci]):
+                return m(pi + 1, ci + 1)
+            return set()
+        for end in m(0, 0):
+            if end == len(comps):
+                if is_dir or not dir_only:
+                    return True
+            elif end < len(comps) and end > 0:
+                return True        # something below the named path
+        return False
     if pat.startswith("**/"):
         pat = pat[3:]
     pc = pat.split("/")
